@@ -375,6 +375,14 @@ class OrderedMultiDict(dict, MutableMappingSequence):
 
         kvlist = _insert_arg_helper(args)
 
+        # Normalize the index the way list.insert() does, once, so that
+        # several pairs stay together and in order for a negative index.
+        n = len(self.__items)
+        if index < 0:
+            index = max(index + n, 0)
+        elif index > n:
+            index = n
+
         for (key, value) in kvlist:
             self.__items.insert(index, (key, value))
             index += 1
